@@ -62,12 +62,20 @@ package surveyor
 //@   ensures name == protocol.OptionReadQLen ==> (isnil(result) <==> is_int(value) && 0 <= int_of(value))
 //@   ensures name == protocol.OptionReadQLen && !isnil(result) ==> result == protocol.ErrBadValue
 //@   ensures name == protocol.OptionReadQLen && isnil(result) ==> c.recvQLen == int_of(value)
-//@   ensures !isnil(result) ==> unchanged(c.recvExpire, c.recvQLen, c.survExpire)
+//@   ensures !isnil(result) && (name == protocol.OptionSurveyTime || name == protocol.OptionRecvDeadline || name == protocol.OptionReadQLen) ==> unchanged(c.recvExpire, c.recvQLen, c.survExpire)
 //@
 //@ func (*context).GetOption
 //@   ensures option != protocol.OptionSurveyTime && option != protocol.OptionRecvDeadline && option != protocol.OptionReadQLen ==> result1 == protocol.ErrBadOption && isnil(result0)
 //@   ensures option == protocol.OptionSurveyTime ==> isnil(result1) && result0 == iface(c.survExpire)
 //@   ensures option == protocol.OptionRecvDeadline ==> isnil(result1) && result0 == iface(c.recvExpire)
 //@   ensures option == protocol.OptionReadQLen ==> isnil(result1) && result0 == iface(c.recvQLen)
+//@
+//@ func (*socket).SetOption
+//@   ensures option == protocol.OptionWriteQLen ==> (isnil(result) <==> is_int(value) && 0 <= int_of(value))
+//@   ensures option == protocol.OptionWriteQLen && !isnil(result) ==> result == protocol.ErrBadValue
+//@   ensures option == protocol.OptionWriteQLen && isnil(result) ==> s.sendQLen == int_of(value)
+//@
+//@ func (*socket).GetOption
+//@   ensures option == protocol.OptionWriteQLen ==> isnil(result1) && result0 == iface(s.sendQLen)
 //@
 // ---- end generated option contracts ----
